@@ -239,8 +239,38 @@ func densePacket(t byte, kind string, a []int) *spec.Packet {
 			return nil
 		}
 		return gen.WithSiteLen(p, a[3], a[4])
+	case "listlen": // list kind (0 user properties, 1 subscription identifiers, 2 filters, 3 reason codes), count
+		p := minimalPacket(t)
+		n := a[1]
+		switch a[0] {
+		case 0:
+			var keep []spec.Prop
+			for i := 0; i < n; i++ {
+				keep = append(keep, spec.Prop{ID: 0x26, B: []byte(fmt.Sprintf("k%d", i)), V: []byte(fmt.Sprintf("v%d", i%7))})
+			}
+			p.Props = append(p.Props, keep...)
+		case 1:
+			for i := 0; i < n; i++ {
+				p.Props = append(p.Props, spec.Prop{ID: 0x0b, N: uint32(1 + i%5 + 128*(i%3))})
+			}
+		case 2:
+			p.Filters = nil
+			for i := 0; i < n; i++ {
+				f := spec.Filter{Topic: []byte(fmt.Sprintf("f/%d", i)), Opts: byte(i % 3)}
+				if t == 10 {
+					f.Opts = 0
+				}
+				p.Filters = append(p.Filters, f)
+			}
+		case 3:
+			p.Codes = nil
+			for i := 0; i < n; i++ {
+				p.Codes = append(p.Codes, []byte{0, 1, 2, 0x80, 0x11}[i%5])
+			}
+		}
+		return p
 	case "content": // site, content index, reason code
-		p := gen.WithSiteContent(denseBase(t, 0), a[0], gen.SpecialContents[a[1]])
+		p := gen.WithSiteContent(denseBase(t, 0), a[0], gen.AllContents()[a[1]])
 		if p != nil {
 			p.Reason = byte(a[2])
 		}
@@ -290,9 +320,11 @@ func describeDense(t byte, kind string, a []int) string {
 	case "pair":
 		ss := gen.Sites(denseBase(t, a[0]))
 		return fmt.Sprintf("%s %s with %s of %d bytes and %s of %d bytes", name, bases[a[0]], ss[a[1]].Name, a[2], ss[a[3]].Name, a[4])
+	case "listlen":
+		return fmt.Sprintf("%s minimal with %d %s", name, a[1], []string{"user properties", "subscription identifiers", "filters", "reason codes"}[a[0]])
 	case "content":
 		ss := gen.Sites(denseBase(t, 0))
-		return fmt.Sprintf("%s rich with %s = %q and reason code %#02x", name, ss[a[0]].Name, gen.SpecialContents[a[1]], a[2])
+		return fmt.Sprintf("%s rich with %s = %q and reason code %#02x", name, ss[a[0]].Name, gen.AllContents()[a[1]], a[2])
 	case "subid":
 		return fmt.Sprintf("%s %s with subscription identifier %d (mode %d)", name, bases[a[0]], a[1], a[2])
 	case "filter":
@@ -356,6 +388,44 @@ func enumDense(x *core.Ctx, types []byte, odd bool, fn func(c *pcase)) {
 				}
 			}
 		}
+		// list lengths: every count 0..20 and the counts mined from the
+		// tree's constants (a fixed-size scratch array, a "more than 8"
+		// branch), with pairwise distinct elements
+		{
+			counts := []int{}
+			for n := 0; n <= 20; n++ {
+				counts = append(counts, n)
+			}
+			for _, n := range Mined.Counts {
+				if n > 20 {
+					counts = append(counts, n)
+				}
+			}
+			for _, n := range Mined.Lens {
+				if n <= 3000 {
+					counts = append(counts, n)
+				}
+			}
+			kinds := []int{0}
+			switch t {
+			case 3:
+				kinds = []int{0, 1}
+			case 8, 10:
+				kinds = []int{0, 2}
+			case 9, 11:
+				kinds = []int{0, 3}
+			}
+			for _, k := range kinds {
+				for _, n := range counts {
+					if n == 0 && k >= 2 {
+						continue // no filters / no reason codes: outside the C01 domain
+					}
+					if !emit("S5.dense.listlen", t, "listlen", k, n) {
+						return
+					}
+				}
+			}
+		}
 		// special short contents in every field; for the types that carry a
 		// reason code together with each of its 256 values (renderers and
 		// validators branch on the code and then look at a field)
@@ -363,7 +433,16 @@ func enumDense(x *core.Ctx, types []byte, odd bool, fn func(c *pcase)) {
 			hasReason := t == 2 || (t >= 4 && t <= 7) || t == 14 || t == 15
 			ns := len(gen.Sites(denseBase(t, 0)))
 			for si := 0; si < ns; si++ {
-				for ci := range gen.SpecialContents {
+				for ci := range gen.AllContents() {
+					if hasReason && ci >= len(gen.SpecialContents) {
+						// mined contents: three reason codes
+						for _, rc := range []int{0, 0x80, int(denseBase(t, 0).Reason)} {
+							if !emit("S5.dense.content", t, "content", si, ci, rc) {
+								return
+							}
+						}
+						continue
+					}
 					if hasReason {
 						for rc := 0; rc < 256; rc++ {
 							if !emit("S5.dense.content", t, "content", si, ci, rc) {
